@@ -1647,11 +1647,46 @@ def some_masks(rng, n, k):
 
 # ----------------------------------------------------------------------------- run
 
+ASYNC_CHUNK = 5000   # request lines per driver process started while the harness goes on generating cases
+
+
+def flush_async(b, force=False, chunk=None):
+    """start a driver process (in a thread) on the request lines collected since the last flush, so that the model
+    evaluates them while the implementation side of the next cases runs; `settle` joins.  Same lines, same replies as
+    one run at the end: only the wall time changes."""
+    import threading
+    import os
+    sent = getattr(b, "sent", 0)
+    if len(b.lines) - sent < (1 if force else (chunk or ASYNC_CHUNK)) or (os.environ.get("VERIF_C14_SYNC") and not force):
+        return
+    chunk = b.lines[sent:]
+    b.sent = len(b.lines)
+    box = {}
+
+    def work():
+        try:
+            box["model"] = common.run_driver(PROP, chunk)
+        except BaseException as e:    # re-raised by settle in the main thread (Infra stays Infra)
+            box["error"] = e
+    t = threading.Thread(target=work, daemon=True)
+    t.start()
+    if not hasattr(b, "pending"):
+        b.pending = []
+    b.pending.append((t, box))
+
+
 def settle(ctx, b):
-    """one driver run for the batch; diff"""
+    """join the driver runs of the batch (the last chunk is started here); diff"""
     if not b.lines:
         return
-    model = common.run_driver(PROP, b.lines)
+    flush_async(b, force=True)
+    model = {}
+    for t, box in getattr(b, "pending", []):
+        t.join()
+        if "error" in box:
+            raise box["error"]
+        model.update(box["model"])
+    b.pending = []
     for cid, (op, impl, rp) in b.expect.items():
         reply = model[cid]
         ctx.count("model-op:" + op)
@@ -1672,6 +1707,8 @@ def exhaustive(ctx, b, rng, deadline=None):
     for kind, n, code, g in small_domain():
         if deadline is not None and (time.time() > deadline or ctx.failures):
             return
+        if deadline is None:
+            flush_async(b)     # (the directed search never settles its batches: oracle only)
         # construction route: edge list | dense | csr, the matrices in every dtype in turn (unit weights fit them all)
         dt = ":" + DTYPES[(code // 3 + n) % len(DTYPES)]
         variant = ("edges", "dense" + dt, "csr" + dt)[(code + n) % 3]
@@ -1748,9 +1785,11 @@ def refused_representations(ctx, b, rng):
         safely(ctx, check_basic, b, g, rep + ":" + rng.choice([d for d in DTYPES if dtype_ok(g, d)]), bool(rng.random() < 0.5), rng)
 
 
-def randoms(ctx, b, rng, count):
+def randoms(ctx, b, rng, count, flush=False):
     for k in range(count):
         random_case(ctx, b, rng, k)
+        if flush:
+            flush_async(b, chunk=1200)    # the random cases come last and carry the heaviest model lines: small chunks
 
 
 def random_case(ctx, b, rng, k):
@@ -1990,8 +2029,11 @@ def generated(ctx):
 
 
 def run(ctx):
+    import time
+    t_start = time.time()
     common.prepare_lean(ctx, PROP, IMPORTS, THEOREMS,
                         targets=["MenpoModel.Props.C14", "MenpoModel.Drive.C14"], generated=generated)
+    t_prepared = time.time()
     ctx.trusted += ["scipy.sparse.csgraph results (shortest_path, breadth/depth_first_order, breadth_first_tree, "
                     "connected_components, minimum_spanning_tree) enter the model as parameters; their contract is "
                     "re-checked against the model's Bellman-Ford / Kruskal on every case",
@@ -2015,12 +2057,16 @@ def run(ctx):
     refused_representations(ctx, b, rng)
     exhaustive(ctx, b, rng)
     with_loops(ctx, b, rng)
-    randoms(ctx, b, rng, ctx.n(320, 3200))
+    randoms(ctx, b, rng, ctx.n(320, 3200), flush=True)
     if getattr(b, "skipped_negative", 0):
         ctx.count("oracle-only(negative weights in an operation that adds or orders weights)", b.skipped_negative)
     if getattr(b, "signed", 0):
         ctx.count("model-compared-with-signed-weights(negative weights, structural operation)", b.signed)
+    t_cases = time.time()
     settle(ctx, b)
+    ctx.notes["phase_seconds"] = {"lean build + audit (incl. waiting for the shared lake lock)": round(t_prepared - t_start, 1),
+                                  "cases on the real classes (driver chunks running alongside)": round(t_cases - t_prepared, 1),
+                                  "waiting for the last driver chunks + diff": round(time.time() - t_cases, 1)}
     ctx.notes["exhaustive_small_domains"] = "all 1099 undirected graphs on <=5 vertices and all 4165 loop-free digraphs " \
         "on <=4 vertices run on the real classes (%s masks / start-end pairs per graph, every root)" % (
             "every" if not ctx.quick() else "a seeded sample of")
